@@ -124,7 +124,12 @@ class Analyzer(cfg.GraphVisitor):
     for n in node.prev:
       defs_in |= self.out[n]
 
-    if anno.hasanno(node.ast_node, anno.Static.SCOPE):
+    if (isinstance(node.ast_node, ast.AnnAssign) and
+        node.ast_node.value is None):
+      # A pure declaration, e.g. `n: int`, binds no value.
+      defs_out = defs_in
+
+    elif anno.hasanno(node.ast_node, anno.Static.SCOPE):
       node_scope = anno.getanno(node.ast_node, anno.Static.SCOPE)
       # The definition objects created by each node must be singletons because
       # their ids are used in equality checks.
